@@ -258,6 +258,9 @@ func (SigningCtx) Run(c *orch.Case) *orch.Outcome {
 	}
 	mu.Unlock()
 	_ = ctxID
+	if o.Stuck {
+		sched.NoteStuck()
+	}
 	return &orch.Outcome{Obs: o, Replay: map[string]any{"ops": ops, "note": "forced schedule through SigningContext() with -tags verif gates"}}
 }
 
